@@ -1417,6 +1417,8 @@ impl LpgStore {
             index.resize(label_id as usize + 1, FxHashMap::default());
         }
         index[label_id as usize].insert(node_id, ());
+        // Release the label index before locking `nodes` (lock order: nodes first)
+        drop(index);
 
         // Update label count in node record
         if let Some(chain) = self.nodes.write().get_mut(&node_id)
@@ -1525,6 +1527,8 @@ impl LpgStore {
         if (label_id as usize) < index.len() {
             index[label_id as usize].remove(&node_id);
         }
+        // Release the label index before locking `nodes` (lock order: nodes first)
+        drop(index);
 
         // Update label count in node record
         if let Some(chain) = self.nodes.write().get_mut(&node_id)
@@ -2630,8 +2634,9 @@ impl LpgStore {
         }
 
         // Compute per-edge-type statistics
-        let id_to_edge_type = self.id_to_edge_type.read();
+        // Lock order: `edges` before `id_to_edge_type`, as in get_edge / edge_type
         let edges = self.edges.read();
+        let id_to_edge_type = self.id_to_edge_type.read();
         let epoch = self.current_epoch();
 
         let mut edge_type_counts: FxHashMap<u32, u64> = FxHashMap::default();
@@ -2691,8 +2696,9 @@ impl LpgStore {
         }
 
         // Compute per-edge-type statistics
-        let id_to_edge_type = self.id_to_edge_type.read();
+        // Lock order: edge versions before `id_to_edge_type`, as in get_edge / edge_type
         let versions = self.edge_versions.read();
+        let id_to_edge_type = self.id_to_edge_type.read();
         let epoch = self.current_epoch();
 
         let mut edge_type_counts: FxHashMap<u32, u64> = FxHashMap::default();
